@@ -48,7 +48,7 @@ func (c appContext) Err() error {
 func (appContext) Value(any) any { return nil }
 
 var c20Ops = []string{"read", "write", "ping", "closeread", "netconn-rw", "netconn-deadline", "abandon-reader", "abandon-writer", "wsjson-write", "wsjson-read", "write-big"}
-var c20Endings = []string{"close", "closenow", "peer-close", "violation", "read-limit", "ctx-expiry", "transport-eof", "transport-reset", "transport-cut-midframe", "peer-flood", "peer-stalls-in-next-header"}
+var c20Endings = []string{"close", "closenow", "peer-close", "violation", "read-limit", "ctx-expiry", "transport-eof", "transport-reset", "transport-cut-midframe", "peer-flood", "peer-stalls-in-next-header", "closeread-behind-blocked-writer", "closeread-slow-handshake"}
 
 var libCreated = regexp.MustCompile(`created by nhooyr\.io/websocket[./(]`)
 
@@ -266,6 +266,40 @@ func runC20Once(t fataler, c c20Case, iter int) string {
 		lc.End.CloseWrite(memconn.ErrReset)
 		if !closeReadOn {
 			do(func() { conn.Read(base) })
+		}
+	case "closeread-behind-blocked-writer", "closeread-slow-handshake":
+		// CloseRead is active and the peer sends a data message: the CloseRead goroutine starts a close handshake of
+		// its own (status 1008). Either its Close frame has to queue behind an application Write that the peer takes
+		// slowly - the peer reads exactly that message and nothing behind it - or the peer takes the Close frame off the
+		// wire only after 4 s and never answers. The user's final call comes while that handshake is still going on.
+		if !closeReadOn {
+			conn.CloseRead(base)
+			closeReadOn = true
+		}
+		c.Echo = "none"
+		lc.End.SetInBudget(0)
+		if c.Ending == "closeread-behind-blocked-writer" {
+			big := make([]byte, 100000)
+			do(func() { conn.Write(base, websocket.MessageBinary, big) })
+			synctest.Wait()
+			p.send(ref.Frame{Fin: true, Opcode: ref.OpBinary, Payload: []byte("data for a CloseRead connection")})
+			synctest.Wait()
+			hdr := 10
+			if c.Mode.Client {
+				hdr = 14
+			}
+			if c.Mode.Mode == websocket.CompressionDisabled {
+				lc.End.AddInBudget(int64(len(big) + hdr)) // the message, to its last byte, and not one byte more
+			} else {
+				lc.End.AddInBudget(64) // compressed zeros are a few dozen bytes: some of the message, and then nothing
+			}
+		} else {
+			p.send(ref.Frame{Fin: true, Opcode: ref.OpBinary, Payload: []byte("data for a CloseRead connection")})
+			e.Go(func() {
+				if e.sleep(4 * time.Second) {
+					lc.End.SetInBudget(-1)
+				}
+			})
 		}
 	case "peer-stalls-in-next-header":
 		// a complete data message and the first k bytes of the next frame's header arrive in one piece (2..14 bytes:
